@@ -231,12 +231,16 @@ def afterAttach (σ : Sess) (o : Oid) : Sess :=
   let σ := setO σ o (fun ob => { ob with att := true })
   if (getO σ o).key.isSome then emit σ .x2s o else emit σ .t2p o
 
+/-- `if state not in self._new: self._new[state] = obj; state.insert_order = len(self._new)` -/
+def registerNew (σ : Sess) (o : Oid) : Sess :=
+  if σ.new.contains o then σ
+  else setO { σ with new := σ.new ++ [o] } o (fun ob => { ob with ins := σ.new.length + 1 })
+
 /-- `_save_impl` -/
 def saveImpl (σ : Sess) (o : Oid) : R :=
   if (getO σ o).key.isSome then fail σ .invalid else
   let (σ, toAttach) := beforeAttach σ o
-  let σ := if σ.new.contains o then σ
-           else setO { σ with new := σ.new ++ [o] } o (fun ob => { ob with ins := σ.new.length + 1 })
+  let σ := registerNew σ o
   ok (if toAttach then afterAttach σ o else σ)
 
 /-- `_update_impl(state, revert_deletion)` -/
@@ -374,16 +378,21 @@ def dupIdent (σ : Sess) (os : List Oid) : Bool :=
   let ks := os.filterMap (fun o => identFromState (getO σ o))
   ks.eraseDups.length != ks.length
 
+/-- `_register_persistent` after the key loop: `_commit_all_states`, `_register_altered`, the
+    pending_to_persistent events, removal from `_new` -/
+def registerFinish (σ : Sess) (os : List Oid) : Sess :=
+  let σ := os.foldl (fun σ o => setO σ o commitAllObj) σ
+  let σ := os.foldl registerAlteredOne σ
+  let inNew := os.filter (fun o => σ.new.contains o)
+  let σ := inNew.foldl (fun σ o => emit σ .p2s o) σ
+  { σ with new := σ.new.filter (fun o => !inNew.contains o) }
+
 /-- `Session._register_persistent(states)` -/
 def registerPersistent (σ : Sess) (os : List Oid) : R :=
   let σ := markNondetIf (dupIdent σ os) σ
   -- an exception in the middle of the loop leaves a set-order dependent part registered
   (failNondet (decide (os.length > 1)) (registerKeys σ os)).bind fun σ =>
-  let σ := os.foldl (fun σ o => setO σ o commitAllObj) σ
-  let σ := os.foldl registerAlteredOne σ
-  let inNew := os.filter (fun o => σ.new.contains o)
-  let σ := inNew.foldl (fun σ o => emit σ .p2s o) σ
-  ok { σ with new := σ.new.filter (fun o => !inNew.contains o) }
+  ok (registerFinish σ os)
 
 /-! ### transaction snapshots (SessionTransaction) -/
 
